@@ -195,7 +195,15 @@ type EnvSpec struct {
 	NS    map[string]string `json:"ns,omitempty"`
 	Vars  []VarSpec         `json:"vars,omitempty"`
 	Funcs []string          `json:"funcs,omitempty"` // stock user functions, see stockFuncs
+	rec   *recorder         // call logs of recording user functions (not serialised)
 }
+
+// recorder collects what recording user functions observed on each side.
+type recorder struct {
+	impl, ref []string
+}
+
+func (r *recorder) reset() { r.impl, r.ref = r.impl[:0], r.ref[:0] }
 
 func parseNum(s string) float64 {
 	switch s {
@@ -239,7 +247,11 @@ func (e EnvSpec) RefEnv(d *adoc.Doc) *refxp.Env {
 	}
 	for _, f := range e.Funcs {
 		sf := stockFuncs[f]
-		env.Funcs[refxp.Name{Space: sf.space, Local: sf.local}] = sf.ref
+		if sf.refRec != nil {
+			env.Funcs[refxp.Name{Space: sf.space, Local: sf.local}] = sf.refRec(e.rec)
+		} else {
+			env.Funcs[refxp.Name{Space: sf.space, Local: sf.local}] = sf.ref
+		}
 	}
 	return env
 }
@@ -270,7 +282,11 @@ func (e EnvSpec) ImplSettings(b *impl.Binding) []xsel.ContextApply {
 	}
 	for _, f := range e.Funcs {
 		sf := stockFuncs[f]
-		out = append(out, xsel.WithFunctionNS(sf.space, sf.local, sf.impl(b)))
+		if sf.implRec != nil {
+			out = append(out, xsel.WithFunctionNS(sf.space, sf.local, sf.implRec(b, e.rec)))
+		} else {
+			out = append(out, xsel.WithFunctionNS(sf.space, sf.local, sf.impl(b)))
+		}
 	}
 	return out
 }
@@ -280,12 +296,14 @@ type stockFunc struct {
 	space, local string
 	ref          refxp.UserFunc
 	impl         func(b *impl.Binding) xsel.Function
+	refRec       func(rec *recorder) refxp.UserFunc
+	implRec      func(b *impl.Binding, rec *recorder) xsel.Function
 }
 
 var stockFuncs = map[string]stockFunc{
 	// els(): all elements of the document, in document order
-	"els": {"", "els",
-		func(ctx refxp.Ctx, args []refxp.Value) (refxp.Value, error) {
+	"els": {space: "", local: "els",
+		ref: func(ctx refxp.Ctx, args []refxp.Value) (refxp.Value, error) {
 			ns := refxp.NodeSet{}
 			for _, n := range ctx.Env.Doc.Nodes {
 				if n.Kind == adoc.Elem {
@@ -294,7 +312,7 @@ var stockFuncs = map[string]stockFunc{
 			}
 			return ns, nil
 		},
-		func(b *impl.Binding) xsel.Function {
+		impl: func(b *impl.Binding) xsel.Function {
 			return func(c xsel.Context, args ...xsel.Result) (xsel.Result, error) {
 				ns := xsel.NodeSet{}
 				for _, n := range b.Doc.Nodes {
